@@ -20,3 +20,10 @@ Proof.
   apply union_prune_eq_strong; [ | exact Hiv | exact Hlo].
   destruct l; [contradiction | discriminate].
 Qed.
+
+(* C16: SetMin installs the blend function and switches the pruning off: Evaluate is then EvaluateSlow *)
+Lemma go_union_setmin_blend : forall (minf : R -> R -> R) (l : list (Obj2 ROps)) (p : V2 ROps),
+  @sdf_UnionSDF2_SetMin ROps minf = (minf, true) /\
+  @sdf_UnionSDF2_Evaluate ROps (map pf2 l) (fst (@sdf_UnionSDF2_SetMin ROps minf)) (snd (@sdf_UnionSDF2_SetMin ROps minf)) p =
+  @sdf_UnionSDF2_EvaluateSlow ROps (map pf2 l) minf p.
+Proof. intros. split; reflexivity. Qed.
